@@ -78,7 +78,7 @@ func TestWorker(t *testing.T) {
 			rs = *fRunSeed
 		}
 		prof := MakeProfile(*fProp, rs, *fTier)
-		stop := watchdog(180*time.Second, fmt.Sprintf("run seed=%d", rs))
+		stop := watchdog(600*time.Second, fmt.Sprintf("run seed=%d", rs))
 		res := Run(t, rs, prof, nil, i < 2)
 		stop()
 		if res.Infra != "" {
@@ -115,7 +115,7 @@ func TestReplay(t *testing.T) {
 	if err != nil {
 		t.Fatal(err)
 	}
-	stop := watchdog(300*time.Second, "replay")
+	stop := watchdog(900*time.Second, "replay")
 	res := Run(t, rp.Seed, prof, nonNil(rp.Trace), true)
 	stop()
 	if *fLog {
@@ -166,7 +166,7 @@ func TestMinimise(t *testing.T) {
 		if time.Now().After(deadline) {
 			return false
 		}
-		stop := watchdog(300*time.Second, "minimise run")
+		stop := watchdog(900*time.Second, "minimise run")
 		res := Run(t, rp.Seed, prof, nonNil(tr), false)
 		stop()
 		if res.Infra != "" {
